@@ -249,7 +249,21 @@ impl Ls {
     pub fn call(&mut self, id: i32, method: &str, params: Value) -> Option<Response> {
         let rid: RequestId = id.into();
         self.request(rid.clone(), method, params);
-        self.settle();
+        // fast path: the handler task usually completes without waiting for timers
+        for _ in 0..3 {
+            self.rt.block_on(async {
+                for _ in 0..48 {
+                    tokio::task::yield_now().await;
+                }
+            });
+            self.drain();
+            if self.received.iter().any(|m| matches!(m, Message::Response(r) if r.id == rid)) {
+                break;
+            }
+        }
+        if !self.received.iter().any(|m| matches!(m, Message::Response(r) if r.id == rid)) {
+            self.settle();
+        }
         let pos = self.received.iter().position(|m| matches!(m, Message::Response(r) if r.id == rid))?;
         match self.received.remove(pos) {
             Message::Response(r) => Some(r),
